@@ -3028,7 +3028,8 @@ pub fn matrix_column_elements(&mut self, column_elements: &[&MatrixColumn]) -> S
         if self.html {
           format!("<span class=\"mech-not-op\">¬</span><span class=\"mech-not\">{}</span>", self.factor(factor))
         } else {
-          format!("¬{}", self.factor(factor))
+          // `!` in text: `{¬2: 1}` would be read as a record with a field named ¬2
+          format!("!{}", self.factor(factor))
         }
       }
       Factor::Transpose(factor) => {
